@@ -27,6 +27,8 @@ impl MemTable {
     }
 
     pub fn write(&self, write_batch: &mut WriteBatch) -> Result<(), SError> {
+        #[cfg(rescrv_blue_verif)]
+        let mut verif_index = 0u64;
         for entry in write_batch.entries.iter() {
             self.approximate_size.fetch_add(
                 entry.key.len() + entry.value.as_ref().map(|x| x.len()).unwrap_or_default() + 16,
@@ -35,6 +37,11 @@ impl MemTable {
             let key = Key::from(entry);
             let value = entry.value.clone();
             self.skiplist.insert(key, value);
+            #[cfg(rescrv_blue_verif)]
+            {
+                crate::verif::point("kvs.write.insert", [entry.timestamp, verif_index, 0]);
+                verif_index += 1;
+            }
         }
         Ok(())
     }
